@@ -174,6 +174,25 @@ def affineRow (L : List (List α)) (mu : List α) (z : List α) : List α :=
 def affineMap (L : List (List α)) (mu : List α) (Z : List (List α)) : List (List α) :=
   Z.map (affineRow L mu)
 
+/-- `if mu is None: mu = np.zeros(d)` else `np.atleast_1d(mu)` (a size-1 `mu` is broadcast by
+    the `+ mu` against the `d` columns) -/
+def resolveMu (d : Nat) (mu : Option (List α)) : List α :=
+  match mu with
+  | none => List.replicate d 0
+  | some m => broadcastTo d m
+
+/-- `if sig2 is None: sig2 = np.eye(d)` else `np.atleast_1d(sig2).reshape(d, d)` (row-major) -/
+def resolveSig2 (d : Nat) (sig2 : Option (List α)) : List (List α) :=
+  match sig2 with
+  | none => (List.range d).map fun i => (List.range d).map fun j => if i = j then 1 else 0
+  | some flat => (List.range d).map fun i => (List.range d).map fun j => flat.getD (i * d + j) 0
+
+/-- the nodes of `qnwnorm(n, mu, sig2)` for `d > 1` from the standard tensor nodes `Z` and the factor
+    `L` of the *resolved* covariance: the shift by the resolved `mu` is applied whether or not
+    `sig2` was given -/
+def qnwnormNodes (d : Nat) (mu : Option (List α)) (L : List (List α)) (Z : List (List α)) : List (List α) :=
+  affineMap L (resolveMu d mu) Z
+
 /-- `nodes * new_sig2 + mu` (d = 1) -/
 def affine1 (s mu : α) (z : List α) : List α := z.map fun t => t * s + mu
 
@@ -501,6 +520,25 @@ def handle (toks : List String) : String :=
     match kvRatMat r "L", kvRats r "mu", kvRatMat r "Z" with
     | some L, some mu, some Z => showMat showRat (affineMap L mu Z)
     | _, _, _ => "bad-op"
+  | "normnodes" :: r =>
+    -- mu=none | list; L = factor of the resolved covariance; d=1: Z is one column
+    match kvNat r "d", kv r "mu", kvRatMat r "L", kvRatMat r "Z" with
+    | some d, some mus, some L, some Z =>
+      let mu? : Option (Option (List Rat)) :=
+        if mus = "none" then some none else (parseList? parseRat? mus).map some
+      match mu? with
+      | some mu => showMat showRat (qnwnormNodes d mu L Z)
+      | none => "bad-op"
+    | _, _, _, _ => "bad-op"
+  | "sig2" :: r =>
+    match kvNat r "d", kv r "sig2" with
+    | some d, some ss =>
+      let s? : Option (Option (List Rat)) :=
+        if ss = "none" then some none else (parseList? parseRat? ss).map some
+      match s? with
+      | some sg => showMat showRat (resolveSig2 d sg)
+      | none => "bad-op"
+    | _, _ => "bad-op"
   | "affine1" :: r =>
     match kvRat r "s", kvRat r "mu", kvRats r "z" with
     | some s, some mu, some z => showList showRat (affine1 s mu z)
